@@ -66,6 +66,14 @@ def main():
     except core.InternalError as e:
         print("INTERNAL-ERROR: %s" % e)
         return 2
+    except Exception as e:  # noqa: BLE001 -- a check never ends without a verdict line: a crash of the harness is one
+        import traceback
+        traceback.print_exc()
+        tb = traceback.extract_tb(e.__traceback__)
+        print("INTERNAL-ERROR: check %s %s crashed: %s: %s (%s:%d)" % (
+            prop, tier, type(e).__name__, str(e)[:200], os.path.basename(tb[-1].filename) if tb else "?",
+            tb[-1].lineno if tb else 0))
+        return 2
 
 
 if __name__ == "__main__":
